@@ -59,16 +59,49 @@ func init() {
 func verifVisitor(v *parser.FHIRPathVisitor) {
 	if verifTrace.file != nil {
 		v.Transform = func(e expr.Expression) expr.Expression {
-			// the visitor hands every node to the transform except the indexer it puts into a sequence
-			if s, ok := e.(*expr.ExpressionSequence); ok {
-				for i, x := range s.Expressions {
-					if _, isIndex := x.(*expr.IndexExpression); isIndex {
-						s.Expressions[i] = &verifNode{inner: x}
-					}
-				}
-			}
+			verifWrapChildren(e)
 			return &verifNode{inner: e}
 		}
+	}
+}
+
+// verifWrapChildren wraps the children the visitor does not hand to the transform itself (the indexer it puts into a
+// sequence, $this), so that every child evaluation is an event of its own.
+func verifWrapChildren(e expr.Expression) {
+	wrap := func(x expr.Expression) expr.Expression {
+		if _, done := x.(*verifNode); done || x == nil {
+			return x
+		}
+		verifWrapChildren(x)
+		return &verifNode{inner: x}
+	}
+	switch n := e.(type) {
+	case *expr.ExpressionSequence:
+		for i := range n.Expressions {
+			n.Expressions[i] = wrap(n.Expressions[i])
+		}
+	case *expr.FunctionExpression:
+		for i := range n.Args {
+			n.Args[i] = wrap(n.Args[i])
+		}
+	case *expr.IndexExpression:
+		n.Index = wrap(n.Index)
+	case *expr.EqualityExpression:
+		n.Left, n.Right = wrap(n.Left), wrap(n.Right)
+	case *expr.BooleanExpression:
+		n.Left, n.Right = wrap(n.Left), wrap(n.Right)
+	case *expr.ComparisonExpression:
+		n.Left, n.Right = wrap(n.Left), wrap(n.Right)
+	case *expr.ArithmeticExpression:
+		n.Left, n.Right = wrap(n.Left), wrap(n.Right)
+	case *expr.ConcatExpression:
+		n.Left, n.Right = wrap(n.Left), wrap(n.Right)
+	case *expr.IsExpression:
+		n.Expr = wrap(n.Expr)
+	case *expr.AsExpression:
+		n.Expr = wrap(n.Expr)
+	case *expr.NegationExpression:
+		n.Expr = wrap(n.Expr)
 	}
 }
 
